@@ -928,6 +928,31 @@ def run_c07(chk):
                 if v[0] != v[1] + v[2]:
                     mfail.append((t, "count((%s)|(%s))" % (A, Bx), "the union of node-sets of different node kinds loses nodes: %g != %g + %g"
                                   % (v[0], v[1], v[2]), cab))
+    # unions of THREE operands with an EMPTY one among them, in every order of the other two: the same ordered node-set as A|B
+    # (kept by hand: seed C07-F skipped the final sort when "no operand begins before the end of the one in front of it" and lost
+    # track of that end at an empty operand; its detection had depended on a random expression)
+    e3q, e3meta = [], []
+    for kd in KDOCS:
+        es, m = [], []
+        for (A, ka) in KSETS:
+            for (Bx, kb) in KSETS:
+                if A < Bx and "n" not in (ka, kb):
+                    es += ["(%s)|(%s)" % (A, Bx), "(%s)|(//nosuch-x)|(%s)" % (A, Bx), "(%s)|(//nosuch-x)|(%s)" % (Bx, A),
+                           "(//nosuch-x)|(%s)|(%s)" % (Bx, A), "(%s)|(%s)|(//nosuch-x)" % (Bx, A), "(%s)|(//nosuch-x)|(//nosuch-y)|(%s)" % (Bx, A)]
+                    m.append((A, Bx))
+        e3q.append((kd, XP.BINDINGS, es))
+        e3meta.append(m)
+    e3impl = lib.run_lines(lib.build_harness(), [lib.req("qfresh", t, b, *es) for t, b, es in e3q], timeout=900, per_line_resume=True)
+    for (t, b, es), m, a in zip(e3q, e3meta, e3impl):
+        fa, raw, _ = _fields(a, len(es))
+        for gi, (A, Bx) in enumerate(m):
+            g = fa[gi * 6:(gi + 1) * 6]
+            chk.count([t, "empty-operand", A, Bx], nontrivial=True)
+            for j in range(1, 6):
+                if g[j] != g[0]:
+                    mfail.append((t, es[gi * 6 + j], "a union with an empty operand among three differs from the union of the two others "
+                                  "(order or members)", g[j] + " / " + g[0]))
+                    break
     chk.cov["structured_stream"] = "%d expressions x %d documents; %d unions of node-sets of different kinds" % (
         2 * len(cex), len(CONSTRUCT_DOCS), sum(len(m) for m in kmeta))
 
